@@ -40,8 +40,8 @@ TIMEOUT = {'quick': 300, 'thorough': 3000}
 PHASES = ['no_task', 'finalized_no_task', 'task_created', 'run_task_created', 'start_refused_eager', 'first_iteration', 'initialising', 'running', 'abort_requested',
           'shutdown_called', 'ctrl_shutdown_requested', 'in_stop',
           'in_stop_async', 'finished_shutdown', 'finished_error', 'finished_ctrl', 'after_sigterm',
-          'abandoned_loop_abort']
-DELIVER = {'first_iteration', 'initialising', 'running'}
+          'abandoned_loop_abort', 'failing_now', 'running_reused_object']
+DELIVER = {'first_iteration', 'initialising', 'running', 'running_reused_object'}
 DESTS = ['probe', 'input', 'counter', 'fsm', 'pinput', 'pfsm']   # p* = persistent, storage set
 
 SHAPES = [
@@ -149,7 +149,8 @@ def run_phase_case(case, ctx):
         n0 = len(hist.entries)
         try:
             ctor_args = () if shape['ctor'] is None else (shape['ctor'],)
-            ev = edzed.ExtEvent(dest if case['byobj'] else dest.name, 'put', *ctor_args)
+            ev = objs.get('reused_ev') or edzed.ExtEvent(
+                dest if case['byobj'] else dest.name, 'put', *ctor_args)
             if shape['value'] is True:
                 ret = ev.send(case['val'], **shape['kw'])
             else:
@@ -185,9 +186,9 @@ def run_phase_case(case, ctx):
         if phase in ('finished_ctrl', 'ctrl_shutdown_requested'):
             objs['trig'] = edzed.Input('trig', initdef=0, on_output=edzed.Event(
                 '_ctrl', 'shutdown', efilter=edzed.not_from_undef))
-        if phase == 'finished_error':
-            objs['bad'] = edzed.FuncBlock('bad', func=lambda x: 1 // (1 - x)).connect(
-                edzed.Input('zero', initdef=0))
+        if phase in ('finished_error', 'failing_now'):
+            objs['zero'] = edzed.Input('zero', initdef=0)
+            objs['bad'] = edzed.FuncBlock('bad', func=lambda x: 1 // (1 - x)).connect(objs['zero'])
         return dest
 
     async def main(loop):
@@ -239,6 +240,16 @@ def run_phase_case(case, ctx):
             await circuit.shutdown()
             await runtask
             return
+        if phase == 'running_reused_object':
+            ctor_args = () if shape['ctor'] is None else (shape['ctor'],)
+            objs['reused_ev'] = edzed.ExtEvent(dest if case['byobj'] else dest.name, 'put', *ctor_args)
+            try:
+                objs['reused_ev'].send(0)
+                res['early_use'] = 'delivered'
+            except edzed.EdzedInvalidState:
+                res['early_use'] = 'refused'
+            except Exception as err:    # pylint: disable=broad-except
+                res['early_use'] = repr(err)
         task = asyncio.create_task(circuit.run_forever())
         if phase == 'task_created':
             do_send(phase)
@@ -269,7 +280,17 @@ def run_phase_case(case, ctx):
             await circuit.shutdown()
             return
         await circuit.wait_init()
-        if phase == 'running':
+        if phase == 'running_reused_object':
+            # the same ExtEvent object was used (and refused) before the start
+            do_send(phase)
+        elif phase == 'failing_now':
+            # a combinational block fails in the simulation task; in the very next iteration of
+            # the loop - the clean-up has not begun yet - another task sends an event
+            edzed.ExtEvent(objs['zero']).send(1)
+            await asyncio.sleep(0)
+            res['failing_now_state'] = (task.done(), repr(circuit.error)[:60])
+            do_send(phase)
+        elif phase == 'running':
             do_send(phase)
         elif phase == 'abort_requested':
             circuit.abort(RuntimeError('vf abort'))
@@ -494,6 +515,23 @@ def name_checks(ctx, rng, n):
                 ctx.violation(case, 'reserved-name-accepted',
                               f"{cname}({name!r}) was created although names starting with '_' "
                               "are reserved")
+            ctx.case_done(case, True, case)
+        # names that merely CONTAIN a reserved name (surrounding whitespace ...): refused or
+        # kept as they are - the block must not end up with a name beginning with '_'
+        for name in [' _ext_gw', '\t_ext_gw ', '\n_ext_', ' _x', '  _ctrl', ' _not_a ', 'x_ext_',
+                     ' ' + ''.join(rng.choice(alphabet) for _ in range(4))]:
+            edzed.reset_circuit()
+            case = {'kind': 'almost-reserved-name', 'cls': cname, 'name': name}
+            ctx.count('name_checks')
+            try:
+                blk = ctor(name)
+            except Exception:       # pylint: disable=broad-except
+                ctx.case_done(case, True, case)
+                continue
+            if str(blk.name).startswith('_'):
+                ctx.violation(case, 'reserved-name-accepted',
+                              f"{cname}({name!r}) was created and is called {blk.name!r}: names "
+                              "starting with '_' are reserved (events it sends carry that source)")
             ctx.case_done(case, True, case)
         # a legal name is accepted
         edzed.reset_circuit()
